@@ -66,11 +66,18 @@ func NewParser(srcPath, dstPath string) (*Parser, error) {
 	if err != nil {
 		return nil, err
 	}
+	// The go command resolves the package, its module and its imports relative to the directory it
+	// runs in: that must be the setup file's directory, not wherever the process was started.
+	absSrcPath, err := filepath.Abs(srcPath)
+	if err != nil {
+		return nil, err
+	}
 
 	dstStat, _ := os.Stat(dstPath)
 	var parseErr error
 	cfg := &packages.Config{
 		Mode:       parserLoadMode,
+		Dir:        filepath.Dir(absSrcPath),
 		BuildFlags: []string{"-tags", buildTag},
 		Fset:       fileSet,
 		Overlay:    outputOverlay(srcPath, dstPath),
@@ -98,7 +105,7 @@ func NewParser(srcPath, dstPath string) (*Parser, error) {
 			return file, nil
 		},
 	}
-	pkgs, err := packages.Load(cfg, "file="+srcPath)
+	pkgs, err := packages.Load(cfg, "file="+absSrcPath)
 	if err != nil {
 		return nil, logger.Errorf("%v: failed to load type information: \n%w", srcPath, err)
 	}
